@@ -49,3 +49,19 @@ pub use zlink_macros::ReplyError;
 
 #[doc(hidden)]
 pub mod test_utils;
+
+/// Verification hooks (see /verif/DESIGN.md): forwarders to crate-private items.
+#[cfg(zlink_verif)]
+#[doc(hidden)]
+pub mod verif {
+    pub use crate::json_ser::Error as JsonSerError;
+    pub use crate::server::verif_select_all;
+
+    /// Forwarder to the private `json_ser::to_slice`.
+    pub fn to_slice<T>(value: &T, buf: &mut [u8]) -> core::result::Result<usize, JsonSerError>
+    where
+        T: ?Sized + serde::Serialize,
+    {
+        crate::json_ser::to_slice(value, buf)
+    }
+}
